@@ -471,7 +471,7 @@ def timing_ties(traces, res, drv):
     import dyn_mon
     lines, keep = [], []
     for sc, r, trace in traces:
-        if sc.get("cancel_top") is not None or sc.get("busy") or sc.get("rerun") or "hang" in r:
+        if sc.get("busy") or sc.get("rerun") or "hang" in r:
             continue
         try:
             ids, order, A, B, diag = translate(sc, r, trace)
@@ -513,11 +513,11 @@ def replay_all(pid, traces, res, drv):
     layers, relevant = RELEVANT[pid]
     lines, cases = [], []
     for sc, r, trace in traces:
-        if sc.get("cancel_top") is not None or sc.get("busy"):
-            # a top-level run cancelled from outside, or time passing while the loop is busy (the model's clock only
-            # advances in quiet states: assumption A2), are not events of the model: judged by the oracles only
+        if sc.get("busy"):
+            # time passing while the loop is busy (the model's clock only
+            # advances in quiet states: assumption A2) is not an event of the model: judged by the oracles only
             # (a verbose message that the standard output cannot encode - an exception out of the orchestration itself -
-            # is one: `orchFail`)
+            # is one: `orchFail`; so is a top-level run cancelled from outside: `extCancel`)
             res.dist["not_replayed"] = res.dist.get("not_replayed", 0) + 1
             continue
         try:
